@@ -246,6 +246,11 @@ func init() {
 			}
 		}
 		run.Set("heartbeat_shapes", len(shapes))
+		// the detector's memory of a node ends with the node (seq_c12_life.go)
+		lc := c12Lifecycle(run)
+		states += lc
+		transitions += lc
+		run.Set("lifecycle_cases", lc)
 		// a peer that falls silent is always eventually suspected by the running
 		// node - also when sending to it fails (its host is gone) rather than
 		// being silently dropped. Real gossip.New on loopback sockets.
